@@ -639,13 +639,15 @@ class Model():
 
             # An asset can be part of both fields (e.g. a self-association),
             # so each side has to be considered on its own.
-            if field_name == right_field_name and \
-                    asset in getattr(association, left_field_name):
+            # Assets are matched by id, comparing the generated objects by
+            # value recurses through their associations.
+            if field_name == right_field_name and asset.id in \
+                    [a.id for a in getattr(association, left_field_name)]:
                 associated_assets.extend(
                     getattr(association, right_field_name)
                 )
-            if field_name == left_field_name and \
-                    asset in getattr(association, right_field_name):
+            if field_name == left_field_name and asset.id in \
+                    [a.id for a in getattr(association, right_field_name)]:
                 associated_assets.extend(
                     getattr(association, left_field_name)
                 )
